@@ -198,6 +198,7 @@ static void run_campaigns(Ctx& ctx) {
 }
 
 int main(int argc, char** argv) {
+  tp::allow_unassigned_simple = true;
 #ifdef RO_TSAN
   cbor_set_allocs(va::vmalloc, va::vrealloc, va::vfree);
   va::g.locked = true; va::g.single_cap = (size_t)1 << 24;
